@@ -12,3 +12,13 @@ func (rt *Transfer) VerifRecvFile1(f *File) error { return rt.recvFile1(f) }
 func (rt *Transfer) VerifGenerateAndSendSums(in *os.File, fileLen int64) error {
 	return rt.generateAndSendSums(in, fileLen)
 }
+
+// VerifDeleteFiles runs deleteFiles for a file list consisting of the given
+// (sorted) names.
+func (rt *Transfer) VerifDeleteFiles(names []string) error {
+	fl := make([]*File, len(names))
+	for i, n := range names {
+		fl[i] = &File{Name: n}
+	}
+	return rt.deleteFiles(fl)
+}
